@@ -10,6 +10,7 @@ import (
 
 	"verif.local/harness/drivers/cachedrv"
 	"verif.local/harness/drivers/envdrv"
+	"verif.local/harness/drivers/partdrv"
 	"verif.local/harness/drivers/srvdrv"
 )
 
@@ -50,6 +51,8 @@ func main() {
 			vs = strings.Split(*variants, ",")
 		}
 		die(envdrv.Replay(*in, *trace, *out, envdrv.Options{Seed: *seed, Strict: *strict}, vs))
+	case "part-replay":
+		die(partdrv.Replay(*in, *trace, *out, "s", "p"))
 	case "server-replay":
 		die(srvdrv.Replay(*in, *trace, *out, *seed, *conc, *long))
 	default:
